@@ -598,6 +598,7 @@ package service
 //@ ensures [C19] definitions_bindings_price_terms_and_indexes_imported: forall k Key :: {raw[k]} !is_KWAddr(k) && !is_KCtx(k) ==>
 //@      raw[k] == wrBinds(wrDefs(old(raw), data.Definitions, len(data.Definitions)), data.Bindings, len(data.Bindings))[k]
 //@ ensures [C19,C16,C11,C01] no_runtime_records_when_started_on_an_empty_store: emptyStore(old(raw)) ==> noRuntimeRecords(raw)
+//@ ensures [C19,C15] every_imported_definition_is_stored_under_its_own_name: emptyStore(old(raw)) ==> defInv(raw)
 //@ ensures [C19,C15] every_imported_binding_satisfies_the_record_rules_under_its_own_key: emptyStore(old(raw)) ==> (forall s Str, p Bytes :: {raw[KBind(s, p)]} bindFound(raw, s, p) ==>
 //@      bindRecOK(bindOf(raw, s, p)) && bindOf(raw, s, p).ServiceName == s && bindOf(raw, s, p).Provider == p)
 //@ ensures [C19,C09,C11] every_imported_context_is_paused_with_its_batch_completed: emptyStore(old(raw)) ==> (forall id Bytes :: {raw[KCtx(id)]} ctxFound(raw, id) ==>
